@@ -21,7 +21,13 @@ macro_rules! reflected {
         pub struct $n(pub u32);
     )* };
 }
-reflected!(T0, T1, TU, NR);
+reflected!(T0, TU, NR);
+/// exportable like T0, with a stable reflection type path that differs from `core::any::type_name` (what a game does so that
+/// saved scenes survive a module rename): the registry knows it by `TypeId` and by this path, not by its Rust name
+#[derive(Component, Reflect, Serialize, Deserialize, Default, Clone, PartialEq, Debug)]
+#[reflect(Component)]
+#[type_path = "saved_game"]
+pub struct T1(pub u32);
 /// exportable like T0 / T1, with a field that reflection ignores (cloning it by reflection alone is impossible, the
 /// export has to go through `FromReflect`)
 #[derive(Component, Reflect, Serialize, Deserialize, Default, Clone, PartialEq, Debug)]
